@@ -1,7 +1,7 @@
 """C04 — the unrolled SMT encoding is well-formed and faithful to the system."""
 # "C04"  compares the implementation with the model of encoding.rs as it is today (variant Current);
 # "C04F" compares with the model of the repaired code (variant Fixed): switch after the fix commit.
-HANDLER = "C04"
+HANDLER = "C04F"
 RULE = ("generated transition systems (1-3 bit-vector states of width 1-4, optional array state with 1-2 index bits, 0-2 inputs; states "
         "with/without init, with/without next, constant states; 1-3 shared sub-terms each planted into a chosen subset of "
         "{init, next, bad/constraint} expressions; init expressions reading earlier (rarely: later) states; bad states/constraints that are a "
